@@ -25,6 +25,34 @@ def run(tier):
         "coroutine scripts: 1-3 coroutines (create or wrap), bodies of 1-4 operations from {yield v*, resume any coroutine (incl. its resumer, itself, dead ones) v*, status/running, yield from nested and tail-called Lua calls, pcall inside the body, loop with locals and a shared upvalue across yields, return v*, error v}, main script of 2-6 resumes/status calls, payloads of 0-3 distinguishable values; fixed programs: generator in for-in, mutual resume, nesting depth 3, wrap error propagation, misuse from the main thread, locals/closures surviving suspension",
         [], t0, max_steps=20000, nontrivial_min_emits=3)
     lsem.foot_pass(PROP, progs, verd, stats, cov)      # Frames stage 2 (specs/FramesStep.tla)
+    # the Go API: a host drives a thread with LState.Resume; the resumer's own stack is the same before and after every
+    # resume, however many values the coroutine yields (Frames: GoBracket around the first resume, SamePlace between the rest)
+    api_srcs = []
+    for nvals in (0, 1, 3, 40):
+        vals = ", ".join(str(10 + i) for i in range(nvals))
+        api_srcs.append("local a, b = coroutine.yield(%s) emit('got', a, b) local c = coroutine.yield(%s) emit('got2', c) for i = 1, 30 do coroutine.yield(i%s) end return 'done'" % (vals, vals, (", " + vals) if vals else ""))
+        api_srcs.append("local function deep(n) if n == 0 then return coroutine.yield(%s) end return (deep(n - 1)) end emit(deep(5)) emit(deep(2)) return %s" % (vals, vals or "nil"))
+        api_srcs.append("emit('once') return %s" % (vals or "nil"))
+        api_srcs.append("coroutine.yield(%s) error('after-yield')" % vals)
+    aprogs = [{"id": i + 1, "fam": "apiresume", "src": src, "opts": {"resumed": True}, "snap": True} for i, src in enumerate(api_srcs)]
+    aouts = lsem.run_real(aprogs, "c06api")
+    recs = []
+    for ap in aprogs:
+        o = aouts[ap["id"]]
+        if o["outcome"][0] not in ("ok", "err"):
+            verd.candidate("C06:api-resume:%s" % o["outcome"][0], "driving %r with LState.Resume ended in %s" % (ap["src"][:60], o["outcome"]), {"program": ap, "real": o})
+        recs.append({"id": ap["id"], "snaps": o.get("snaps") or [], "nres": 0})
+    napi = 0
+    for r in vlib.validate_batches("FramesTrace", "FramesTrace", recs, "c06api", batch=50, parallel=1, timeout=600, heap="2g"):
+        stats["states"] += r.distinct
+        for v in r.tag("VERDICT"):
+            napi += 1
+            if not v["ok"]:
+                ap = aprogs[v["id"] - 1]
+                verd.candidate("C06:api-resume:%s" % v["rule"], "LState.Resume on %r: the resumer's control skeleton violates '%s' at snapshot %d of %d" % (ap["src"][:60], v["rule"], v["at"], v["n"]),
+                               {"program": ap, "verdict": v, "api": True})
+    vlib.log("[C06] LState.Resume: %d host-driven threads, resumer snapshots validated by FramesTrace" % napi)
+    cov["api_resume_runs"] = napi
     rc = verd.finish()
     cov["known_findings_hit"] = sorted(verd.known_hit)
     cov["spec_invariants_checked_on_every_state"] = ["CoInv: exactly one running, normal = resumer chain, dead keeps nothing"]
@@ -38,6 +66,8 @@ def replay(path):
     rec = json.load(open(path))
     if rec["replay"].get("foot"):
         return lsem.replay_foot(PROP, rec)
+    if rec["replay"].get("api") or rec["replay"]["program"].get("fam") == "apiresume":
+        return run("quick")
     p = rec["replay"]["program"]
     verd = vlib.Verdicts(PROP)
     verd.findings = []
